@@ -372,7 +372,7 @@ pub fn dest_plan(r: &mut Rng, with_faults: bool) -> DestPlan {
     if with_faults {
         let n = if r.chance(1, 4) { 2 } else { 1 };
         for _ in 0..n {
-            let op = r.below(90) as u32;
+            let op = r.below(180) as u32;
             let kind = match r.below(8) {
                 0 | 1 => DestFx::Short(*r.pick(&[1u64, 2, 11, 12, 13, 31, 100, 4096])),
                 2 => DestFx::Interrupted,
